@@ -589,6 +589,22 @@ func genC02(g *G) {
 			g.L("boundary-hevc").run(fmt.Sprintf("c02.boundary hevc 6201%02x%s", se|t, hx(r.Bytes(3))))
 		}
 	}
+	// a name published with audio and video, unpublished, a consumer joins in the gap, then the name is published again with
+	// audio only (and the other way round): the consumer of a stream that now has no video is not held back
+	for _, k := range []string{"r", "f", "w"} {
+		for _, ms := range []int{0, 300} {
+			av := []string{"P", "M:9:0:1700000000aabb", "M:8:0:af001210", "M:9:0:1701000000a1", "M:8:20:af01b1", "M:9:40:2701000000a2", "p"}
+			ao := []string{"P", "M:8:0:af001210", "M:8:0:af01c1", "M:8:20:af01c2", "M:8:40:af01c3", "p"}
+			for _, order := range [][][]string{{av, ao}, {ao, av}, {av, av}} {
+				evs := append([]string{}, order[0]...)
+				evs = append(evs, "J:"+k+":1")
+				evs = append(evs, order[1]...)
+				evs = append(evs, "J:"+k+":2")
+				evs = append(evs, order[0]...)
+				g.L("corpus-join-in-the-gap").run(fmt.Sprintf("grp.run rc=1,fc=1,rg=1,rk=0,fg=1,fk=0,ms=%d,rec=0 %s", ms, strings.Join(evs, ";")))
+			}
+		}
+	}
 	for _, b := range []string{"-", "65", "7c", "7c85", "78", "780001", "62", "6201", "620193"} {
 		g.L("boundary-short").run("c02.boundary avc " + b)
 		g.L("boundary-short").run("c02.boundary hevc " + b)
